@@ -245,12 +245,12 @@ type crRec struct {
 	walDur int // durable prefix
 	notify chan struct{}
 	frozen bool
-	saved  map[common.Hash]bool // hashes with a hash->height entry (blocks saved with WriteBlock)
-	apps   map[uint64]bool      // heights with an app-hash entry
+	saved  map[common.Hash]bool   // hashes with a hash->height entry (blocks saved with WriteBlock)
+	apps   map[uint64]common.Hash // app hash per height
 }
 
 func crNewRec() *crRec {
-	return &crRec{notify: make(chan struct{}, 1), saved: map[common.Hash]bool{}, apps: map[uint64]bool{}}
+	return &crRec{notify: make(chan struct{}, 1), saved: map[common.Hash]bool{}, apps: map[uint64]common.Hash{}}
 }
 
 // process-wide (one case per process): transactions per block hash (from the node's own block
@@ -326,10 +326,10 @@ func (r *crRec) addDB(ops []crOp) {
 		for _, op := range ops {
 			if !op.del && len(op.k) == 10 && op.k[0] == 'a' && op.k[1] == 'h' {
 				h := crU64(op.k[2:])
-				if w.kind == "binfo" && r.apps[h] {
-					w.aux = 1 // an app hash for this height existed: the block is applied again
+				if prev, ok := r.apps[h]; ok && w.kind == "binfo" && prev != common.BytesToHash(op.v) {
+					w.aux = 1 // the block is applied again and yields ANOTHER state root (not on disk yet)
 				}
-				r.apps[h] = true
+				r.apps[h] = common.BytesToHash(op.v)
 			}
 		}
 		r.log = append(r.log, w)
@@ -885,7 +885,7 @@ func crStartNode(env *crEnv, mem *memorydb.Database, walBytes []byte, rec *crRec
 	nd.db = &crDB{inner: mem, rec: rec}
 	for it := mem.NewIterator([]byte("ah"), nil); it.Next(); {
 		if k := it.Key(); len(k) == 10 {
-			rec.apps[crU64(k[2:])] = true
+			rec.apps[crU64(k[2:])] = common.BytesToHash(it.Value())
 		}
 	}
 	for it := mem.NewIterator([]byte("H"), nil); it.Next(); {
@@ -895,7 +895,7 @@ func crStartNode(env *crEnv, mem *memorydb.Database, walBytes []byte, rec *crRec
 	}
 	ccfg := configs.TestConsensusConfig()
 	ccfg.RootDir = dir
-	ccfg.TimeoutPropose = 400 * time.Millisecond
+	ccfg.TimeoutPropose = 2 * time.Second // fires only when the proposal really cannot complete (not under machine load)
 	ccfg.TimeoutCommit = 2 * time.Millisecond
 	nd.ccfg = ccfg
 	if walBytes != nil {
@@ -1889,11 +1889,11 @@ func (c *crCase) step(in string, img *crImg, withRel bool, inherited string) (*c
 			return nil, ""
 		}
 	}
-	r := crRestart(c.env, img, 3*time.Second)
+	r := crRestart(c.env, img, 8*time.Second)
 	if !r.walCheck {
 		// the class is taken from the node's log; on disagreement with the file run the restart once more
 		c.o.Count("harness:restart-repeated")
-		r = crRestart(c.env, img, 3*time.Second)
+		r = crRestart(c.env, img, 8*time.Second)
 		if !r.walCheck {
 			c.o.Fail(c.opNo, "replay-class-vs-wal", fmt.Sprintf("cause=harness reported=%s window=%s tail=%s", r.replay, img.window, img.tail))
 		}
